@@ -14,13 +14,13 @@ SPEC = {
              "InnerTxn/Gitxn and as itxn_field, every global, asset/app/account parameter) compiled at every version 2..10 in both modes, "
              "every third with assembleConstants; (2) random recipes at random versions incl. below their documented minimum; (3) label "
              "hazards (subroutine names that sanitise to equal/empty stems or look like opcodes/labels); (4) immediates at 0/15/16/127/128/"
-             "255/256/...; (5) random routers (approval+clear); (6) ABI encode programs; (7) the repository's own example programs (examples/**, tests/teal/rps.py, the algobank router) at every version from their own minimum under every option setting.  An evaluation is one compilation outcome judged "
+             "255/256/...; (5) random routers (approval+clear); (6) ABI encode programs; (7) the repository's own example programs (examples/**, tests/teal/rps.py, the algobank router) at every version from their own minimum under every option setting; (8) every program the compiler returns to the repository's own tests (recorded by a sys.monitoring return hook while pytest runs them).  An evaluation is one compilation outcome judged "
              "(emitted text -> legal at (version, mode)?; rejection -> PyTeal error type?).  Non-trivial = the program was emitted and "
              "contains a branch, a callsub or a version/mode-gated opcode or field; distinct = distinct emitted texts."),
     "assumptions": ["vlib/langspec.py (hand-written from the AVM specification; only 'certain' entries can alarm)",
                     "vlib/tealgrammar.py (Go assembler tokenizer and literal grammar)", "vlib/cfg.py path analysis"],
     "min_evaluations": {"quick": 8000, "thorough": 60000},
-    "must_reach": ["emitted_catalogue", "emitted_sequence", "emitted_corpus", "emitted_recipe", "emitted_labels", "emitted_immediates", "emitted_router", "emitted_abi",
+    "must_reach": ["emitted_suite", "emitted_catalogue", "emitted_sequence", "emitted_corpus", "emitted_recipe", "emitted_labels", "emitted_immediates", "emitted_router", "emitted_abi",
                    "rejected_pt_error", "legal", "gated_constructs_seen"],
     "shard_timeout": {"quick": 600, "thorough": 7200},
 }
@@ -34,7 +34,8 @@ def plan(tier, seed):
     n = 16 if tier == "quick" else 64
     return [{"seed": seed, "shard": i, "nshards": n, "tier": tier,
              "recipes": 300 if tier == "quick" else 1500, "labels": 25 if tier == "quick" else 150,
-             "immediates": 60 if tier == "quick" else 400, "routers": 4 if tier == "quick" else 20, "abi": 20 if tier == "quick" else 150} for i in range(n)]
+             "immediates": 60 if tier == "quick" else 400, "routers": 4 if tier == "quick" else 20, "abi": 20 if tier == "quick" else 150} for i in range(n)] + [
+        {"seed": seed, "shard": n, "nshards": n, "tier": tier, "suite": True}]
 
 
 def judge(acc, it, seen):
@@ -89,6 +90,8 @@ def run_shard(shard):
     seen = set()
     if "replay" in shard:
         return replay(pt, acc, shard["replay"], seen)
+    if shard.get("suite"):
+        return suite_shard(acc, seen, shard["tier"])
     rng = rng_for(shard["seed"], "c04", shard["shard"])
     for it in feed.catalogue_items(pt, rng, shard["shard"], shard["nshards"]):
         judge(acc, it, seen)
@@ -105,6 +108,23 @@ def run_shard(shard):
     for it in feed.router_items(pt, rng, shard["routers"]):
         judge(acc, it, seen)
     for it in feed.abi_items(pt, rng, shard["abi"]):
+        judge(acc, it, seen)
+    return acc.result()
+
+
+def suite_shard(acc, seen, tier):
+    """The repository's own tests as workload: every program the compiler returned to one of them is judged like any other."""
+    from .. import feed, suite
+    recs, st = suite.record(tier)
+    acc.counters["suite_tests_files"] += st["files"]
+    acc.counters["suite_raw_records"] += st["raw_records"]
+    for r in recs:
+        if r.get("mode") not in ("Application", "Signature") or not isinstance(r.get("version"), int):
+            acc.counters["suite_skipped_malformed"] += 1
+            continue
+        it = feed.Item("suite", "app" if r["mode"] == "Application" else "sig", r["version"], tuple(r["optimize"] or (None, None)),
+                       {"tests": r["tests"], "assemble": r["assemble_constants"], "with_sourcemap": r["with_sourcemap"]})
+        it.teal = r["teal"]
         judge(acc, it, seen)
     return acc.result()
 
